@@ -83,6 +83,7 @@ theorem pstep_within (op : Op) (k : Nat) (x y : Option Payment) (h : PStep op k 
   | same => exact hx q hq
   | create _ v _ _ => cases hq; simp [Payment.sent, sentL]
   | delete p _ _ => cases hq
+  | bulkDelete p _ _ _ _ => cases hq
   | delFailed p _ =>
     cases hq
     have := hx p rfl
@@ -337,7 +338,8 @@ theorem map_resolve_noInflight (id : Nat) (st : AState) (as : List Attempt)
 /-- one transition from a succeeded payment: it stays succeeded or is deleted by `DeletePayment`. -/
 theorem pstep_succeeded (op : Op) (k : Nat) (p : Payment) (y : Option Payment)
     (h : PStep op k (some p) y) (hs : p.status = .succeeded) :
-    (y = none ∧ op = .del k) ∨ ∃ q, y = some q ∧ q.status = .succeeded ∧ q.value = p.value := by
+    (y = none ∧ (op = .del k ∨ op = .delAll false false)) ∨
+      ∃ q, y = some q ∧ q.status = .succeeded ∧ q.value = p.value := by
   obtain ⟨hi, hset⟩ := (status_succeeded_iff p).1 hs
   generalize hx : some p = x at h
   cases h with
@@ -346,7 +348,12 @@ theorem pstep_succeeded (op : Op) (k : Nat) (p : Payment) (y : Option Payment)
     rcases hc with hc | ⟨q, hq, hf⟩
     · subst hc; cases hx
     · subst hq; cases hx; rw [hs] at hf; cases hf
-  | delete q hop _ => exact Or.inl ⟨rfl, hop⟩
+  | delete q hop _ => exact Or.inl ⟨rfl, Or.inl hop⟩
+  | bulkDelete q fo hop _ hf =>
+    cases hx
+    cases fo with
+    | false => exact Or.inl ⟨rfl, Or.inr hop⟩
+    | true => have := hf rfl; rw [hs] at this; cases this
   | delFailed q _ =>
     cases hx
     refine Or.inr ⟨_, rfl, ?_, rfl⟩
@@ -371,11 +378,14 @@ theorem pstep_succeeded (op : Op) (k : Nat) (p : Payment) (y : Option Payment)
     rw [status_succeeded_iff]; exact ⟨hi, hset⟩
 
 /-- `succeeded_absorbing`: once a payment is succeeded, after ANY further operations on either
-    backend that do not contain an explicit `DeletePayment` of that hash it is still there, still
-    succeeded, with the same amount (a single step can only keep it succeeded or delete it via
-    `DeletePayment`: `pstep_succeeded`). -/
+    backend that contain neither an explicit `DeletePayment` of that hash nor a bulk
+    `DeletePayments(failedOnly = false, failedHtlcsOnly = false)` it is still there, still
+    succeeded, with the same amount.  In particular it survives every
+    `DeletePayments(failedOnly = true, …)` and every `DeletePayments(…, failedHtlcsOnly = true)`,
+    whatever failure reason it carries. -/
 theorem succeeded_absorbing (b : Backend) (ops : List Op) (s : Store) (k : Nat) (p : Payment)
-    (hp : s.payment? k = some p) (hs : p.status = .succeeded) (hno : Op.del k ∉ ops) :
+    (hp : s.payment? k = some p) (hs : p.status = .succeeded)
+    (hno : Op.del k ∉ ops) (hnb : Op.delAll false false ∉ ops) :
     ∃ q, (exec b s ops).payment? k = some q ∧ q.status = .succeeded ∧ q.value = p.value := by
   induction ops generalizing s p with
   | nil => exact ⟨p, hp, hs, rfl⟩
@@ -383,23 +393,89 @@ theorem succeeded_absorbing (b : Backend) (ops : List Op) (s : Store) (k : Nat) 
     rw [exec_cons]
     have h1 := step_pstep b s op k
     rw [hp] at h1
-    rcases pstep_succeeded op k p _ h1 hs with ⟨_, hop⟩ | ⟨q, hq, hqs, hqv⟩
+    rcases pstep_succeeded op k p _ h1 hs with ⟨_, hop | hop⟩ | ⟨q, hq, hqs, hqv⟩
     · exact absurd (by simp [hop]) hno
+    · exact absurd (by simp [hop]) hnb
     · obtain ⟨q', hq', hqs', hqv'⟩ := ih _ q hq hqs (fun h => hno (List.mem_cons_of_mem _ h))
+        (fun h => hnb (List.mem_cons_of_mem _ h))
       exact ⟨q', hq', hqs', by omega⟩
+
+/-- `bulk_delete_failed_only_keeps_succeeded` (single step, the seeded-bug clause): a succeeded
+    payment — including the documented conflicting state "settled attempt + payment-level failure
+    reason" — is still there and still succeeded after `DeletePayments(failedOnly = true, _)`. -/
+theorem bulk_delete_failed_only_keeps_succeeded (b : Backend) (s : Store) (fho : Bool) (k : Nat)
+    (p : Payment) (hp : s.payment? k = some p) (hs : p.status = .succeeded) :
+    ∃ q, (step b s (.delAll true fho)).1.payment? k = some q ∧ q.status = .succeeded ∧
+      q.value = p.value ∧ q.reason = p.reason := by
+  have hh : s.bulkHit true k = false := by
+    simp [Store.bulkHit, hp, bulkSkip, hs]
+  simp only [step]
+  cases fho with
+  | true =>
+    simp only [if_true]
+    rw [payment?_filterRows_ne _ _ _ (by simp [hh]), hp]
+    exact ⟨p, rfl, hs, rfl, rfl⟩
+  | false =>
+    simp only [Bool.false_eq_true, if_false]
+    rw [payment?_dropInfo, hh, payment?_filterRows_ne _ _ _ (by simp [hh])]
+    simp only [Bool.false_eq_true, if_false, hp]
+    exact ⟨p, rfl, hs, rfl, rfl⟩
+
+/-- `bulk_delete_keeps_inflight`: no form of `DeletePayments` touches a payment whose status is
+    in flight (neither the payment nor any of its attempts). -/
+theorem bulk_delete_keeps_inflight (b : Backend) (s : Store) (fo fho : Bool) (k : Nat)
+    (p : Payment) (hp : s.payment? k = some p) (hs : p.status = .inFlight) :
+    (step b s (.delAll fo fho)).1.payment? k = some p := by
+  have hh : s.bulkHit fo k = false := by
+    simp [Store.bulkHit, hp, bulkSkip, hs]
+  simp only [step]
+  cases fho with
+  | true =>
+    simp only [if_true]
+    rw [payment?_filterRows_ne _ _ _ (by simp [hh]), hp]
+  | false =>
+    simp only [Bool.false_eq_true, if_false]
+    rw [payment?_dropInfo, hh, payment?_filterRows_ne _ _ _ (by simp [hh])]
+    simp only [Bool.false_eq_true, if_false, hp]
+
+/-- `bulk_delete_htlcs_only`: `DeletePayments(_, failedHtlcsOnly = true)` deletes no payment and
+    changes neither amount nor failure reason; the attempts of every payment are either untouched
+    or exactly the non-failed ones (and the latter only when the payment is not in flight and,
+    with `failedOnly`, failed). -/
+theorem bulk_delete_htlcs_only (b : Backend) (s : Store) (fo : Bool) (k : Nat) (p : Payment)
+    (hp : s.payment? k = some p) :
+    ∃ q, (step b s (.delAll fo true)).1.payment? k = some q ∧ q.value = p.value ∧
+      q.reason = p.reason ∧
+      (q.attempts = p.attempts ∨
+        (q.attempts = p.attempts.filter (fun x => !(x.st == .failed)) ∧ p.status ≠ .inFlight ∧
+          (fo = true → p.status = .failed))) := by
+  obtain ⟨i, hi, hpe⟩ := payment?_some_inv hp
+  simp only [step, if_true]
+  cases hh : s.bulkHit fo k with
+  | false =>
+    rw [payment?_filterRows_ne _ _ _ (by simp [hh]), hp]
+    exact ⟨p, rfl, rfl, rfl, Or.inl rfl⟩
+  | true =>
+    obtain ⟨p', hp', hns, hf⟩ := bulkHit_true hh
+    rw [hp] at hp'; cases hp'
+    rw [payment?_of_info (s := s.filterRows _) (i := i) (by simpa [info_filterRows] using hi),
+      attemptsOf_filterRows]
+    refine ⟨_, rfl, ?_, ?_, Or.inr ⟨?_, hns, hf⟩⟩ <;> simp [hpe, mkP, hh]
 
 /-- one transition from a failed payment: it stays failed, is deleted by `DeletePayment`, or is
     replaced by a fresh payment by an explicit `InitPayment` of that hash. -/
 theorem pstep_failed (op : Op) (k : Nat) (p : Payment) (y : Option Payment)
     (h : PStep op k (some p) y) (hs : p.status = .failed) :
-    (y = none ∧ op = .del k) ∨ (∃ v, y = some ⟨v, [], none⟩ ∧ op = .init k v) ∨
+    (y = none ∧ (op = .del k ∨ ∃ fo, op = .delAll fo false)) ∨
+    (∃ v, y = some ⟨v, [], none⟩ ∧ op = .init k v) ∨
     ∃ q, y = some q ∧ q.status = .failed ∧ q.value = p.value := by
   obtain ⟨hi, hset, hr⟩ := (status_failed_iff p).1 hs
   generalize hx : some p = x at h
   cases h with
   | same => cases hx; exact Or.inr (Or.inr ⟨p, rfl, hs, rfl⟩)
   | create _ v hop _ => exact Or.inr (Or.inl ⟨v, rfl, hop⟩)
-  | delete q hop _ => exact Or.inl ⟨rfl, hop⟩
+  | delete q hop _ => exact Or.inl ⟨rfl, Or.inl hop⟩
+  | bulkDelete q fo hop _ _ => exact Or.inl ⟨rfl, Or.inr ⟨fo, hop⟩⟩
   | delFailed q _ =>
     cases hx
     refine Or.inr (Or.inr ⟨_, rfl, ?_, rfl⟩)
@@ -424,10 +500,11 @@ theorem pstep_failed (op : Op) (k : Nat) (p : Payment) (y : Option Payment)
     rw [status_failed_iff]; exact ⟨hi, hset, rfl⟩
 
 /-- `failed_only_by_init`: a failed payment stays failed (same amount) under ANY operations on
-    either backend that contain neither `InitPayment` nor `DeletePayment` of that hash. -/
+    either backend that contain neither `InitPayment` nor `DeletePayment` of that hash nor a bulk
+    `DeletePayments(_, failedHtlcsOnly = false)`. -/
 theorem failed_only_by_init (b : Backend) (ops : List Op) (s : Store) (k : Nat) (p : Payment)
     (hp : s.payment? k = some p) (hs : p.status = .failed)
-    (hno : ∀ op ∈ ops, op ≠ .del k ∧ ∀ v, op ≠ .init k v) :
+    (hno : ∀ op ∈ ops, op ≠ .del k ∧ (∀ fo, op ≠ .delAll fo false) ∧ ∀ v, op ≠ .init k v) :
     ∃ q, (exec b s ops).payment? k = some q ∧ q.status = .failed ∧ q.value = p.value := by
   induction ops generalizing s p with
   | nil => exact ⟨p, hp, hs, rfl⟩
@@ -436,9 +513,10 @@ theorem failed_only_by_init (b : Backend) (ops : List Op) (s : Store) (k : Nat) 
     have h1 := step_pstep b s op k
     rw [hp] at h1
     have hop := hno op (by simp)
-    rcases pstep_failed op k p _ h1 hs with ⟨_, hd⟩ | ⟨v, _, hi⟩ | ⟨q, hq, hqs, hqv⟩
+    rcases pstep_failed op k p _ h1 hs with ⟨_, hd | ⟨fo, hd⟩⟩ | ⟨v, _, hi⟩ | ⟨q, hq, hqs, hqv⟩
     · exact absurd hd hop.1
-    · exact absurd hi (hop.2 v)
+    · exact absurd hd (hop.2.1 fo)
+    · exact absurd hi (hop.2.2 v)
     · obtain ⟨q', hq', hqs', hqv'⟩ := ih _ q hq hqs (fun o ho => hno o (List.mem_cons_of_mem _ ho))
       exact ⟨q', hq', hqs', by omega⟩
 
@@ -460,6 +538,7 @@ theorem pstep_settled_persists (op : Op) (k : Nat) (p q : Payment)
       have := ((status_failed_iff p).1 hf).2.1
       simp [hset] at this
   | delete _ _ _ => cases hq
+  | bulkDelete _ _ _ _ _ => cases hq
   | delFailed p' _ =>
     cases hp; cases hq
     simp only [List.mem_filter]
@@ -533,6 +612,7 @@ theorem step_equiv (s : Store) (op : Op) (hok : opOk s op = true) :
     | none => simp [canon, errClass, unknownOnWrite]
     | some p => exact ⟨rfl, rfl⟩
   | fetch h => exact ⟨rfl, rfl⟩
+  | delAll fo fho => exact ⟨rfl, rfl⟩
 
 /-- answers of a run, with the documented error identities collapsed. -/
 def canonAnswers (ops : List Op) (rs : List Res) : List Res := List.zipWith canon ops rs
@@ -614,6 +694,20 @@ example : respects Store.empty sampleOps = true := by decide
 
 example : ((exec .kv Store.empty sampleOps).payment? 0).map (·.status) = some .succeeded := by decide
 example : ((exec .sql Store.empty sampleOps).payment? 1).map (·.value) = some 7 := by decide
+
+/-- the documented conflicting state (one shard fails, payment-level `Fail` while the other shard
+    is in flight, that shard settles ⇒ succeeded WITH a failure reason), then
+    `DeletePayments(failedOnly = true, false)`, then `InitPayment`: still refused, both backends. -/
+def conflictOps : List Op :=
+  [.init 0 10, .reg 0 (mppAttempt 0 4), .reg 0 (mppAttempt 1 6), .failAtt 0 0, .fail 0 1,
+   .settle 0 1, .delAll true false, .init 0 10]
+
+example : (run .sql Store.empty conflictOps).2.map (·.1) =
+    [.ok, .ok, .ok, .ok, .ok, .ok, .ok, .alreadyPaid] := by decide
+example : (run .kv Store.empty conflictOps).2.map (·.1) =
+    [.ok, .ok, .ok, .ok, .ok, .ok, .ok, .alreadyPaid] := by decide
+example : ((exec .sql Store.empty (conflictOps.take 6)).payment? 0).map
+    (fun p => (p.status, p.reason)) = some (.succeeded, some 1) := by decide
 
 /-- register_gate / no_reinit hypotheses are satisfiable. -/
 example : ∃ s' d, step .sql Store.empty (.init 3 10) = (s', .ok, d) := ⟨_, _, rfl⟩
